@@ -37,6 +37,8 @@ def intercepts(name):
         return True
     if 'raw_vec12handle_error' in name:
         return True
+    if 'abort_on_dtor_unwind' in name and 'DtorUnwindGuard' in name:
+        return True  # std aborts the process when a thread-local destructor unwinds
     return False
 
 
@@ -183,6 +185,8 @@ def call(e, st, fr, name, av, ins):
         st.events.append(('panic', short(name)))
         st.unw = ('aggv', [Ptr(None, 0xdead0), 0])
         return THROW
+    if 'abort_on_dtor_unwind' in name and 'DtorUnwindGuard' in name:
+        raise Violation('abort', "a thread-local destructor panicked: std aborts the process (abort_on_dtor_unwind)")
     if name.endswith('3std7process5abort') or name == 'abort':
         raise Violation('abort', "std::process::abort")
     if name.endswith('slice_index_fail') or name.endswith('slice_start_index_len_fail') or name.endswith('slice_end_index_len_fail') \
